@@ -56,12 +56,12 @@ type frame struct {
 }
 
 type reqInfo struct {
-	no        int // issue order, 1-based (the model's request id)
-	g, owner  int
-	from, to  uint64
-	size      uint64
-	done      bool
-	realID    string
+	no         int // issue order, 1-based (the model's request id)
+	g, owner   int
+	from, to   uint64
+	size       uint64
+	done       bool
+	realID     string
 	srcF, dstF int // frame indices
 }
 
@@ -72,34 +72,35 @@ type memReq struct {
 
 // world is one run: n PMCs and their scripted surroundings.
 type world struct {
-	rec   *ab.Recorder
-	eng   *ab.Engine
-	n     int
-	pmcs  []*pmcpkg.PageMigrationController
-	ctrl  []sim.Port
-	rem   []sim.Port
-	lm    []sim.Port
-	cyc   int
-	net   []sim.Msg
-	pend  [][]memReq
-	store []map[uint64]byte
-	frs   []frame
-	count map[string]int
-	reqs  []*reqInfo
-	curOf []*reqInfo // request being handled by PMC g (from the Accept hook)
-	abs   map[string]int
+	rec      *ab.Recorder
+	eng      *ab.Engine
+	n        int
+	pmcs     []*pmcpkg.PageMigrationController
+	ctrl     []sim.Port
+	rem      []sim.Port
+	lm       []sim.Port
+	cyc      int
+	net      []sim.Msg
+	pend     [][]memReq
+	store    []map[uint64]byte
+	frs      []frame
+	count    map[string]int
+	want     map[string]int
+	reqs     []*reqInfo
+	curOf    []*reqInfo // request being handled by PMC g (from the Accept hook)
+	abs      map[string]int
 	panicked bool
-	stats map[string]int
+	stats    map[string]int
 	// external control side (nil in pmc-only runs): called when a completion is taken
-	onComplete func(g int, m sim.Msg)
+	onComplete    func(g int, m sim.Msg)
 	ctrlByHarness bool
 }
 
-func pmcName(g int) string      { return fmt.Sprintf("GPU[%d].PMC", g) }
-func memPortName(g int) string  { return fmt.Sprintf("GPU[%d].DRAM.Top", g) }
-func cpPortName(g int) string   { return fmt.Sprintf("GPU[%d].CPStub.ToPMC", g) }
-func gpuBase(g int) uint64      { return uint64(g)*0x100000 + 0x1000 }
-func realAddr(g, a int) uint64  { return gpuBase(g) + uint64(a)*unit }
+func pmcName(g int) string     { return fmt.Sprintf("GPU[%d].PMC", g) }
+func memPortName(g int) string { return fmt.Sprintf("GPU[%d].DRAM.Top", g) }
+func cpPortName(g int) string  { return fmt.Sprintf("GPU[%d].CPStub.ToPMC", g) }
+func gpuBase(g int) uint64     { return uint64(g)*0x100000 + 0x1000 }
+func realAddr(g, a int) uint64 { return gpuBase(g) + uint64(a)*unit }
 
 func (w *world) gpuOfPort(p sim.RemotePort) int {
 	for g := 1; g <= w.n; g++ {
@@ -120,7 +121,7 @@ func (w *world) emit(e string, f ab.Rec) {
 }
 
 func newWorld(rec *ab.Recorder, n int) *world {
-	w := &world{rec: rec, eng: ab.NewEngine(), n: n, count: map[string]int{}, abs: map[string]int{},
+	w := &world{rec: rec, eng: ab.NewEngine(), n: n, count: map[string]int{}, want: map[string]int{}, abs: map[string]int{},
 		stats: map[string]int{}, ctrlByHarness: true}
 	rec.ResetIDs()
 	w.pmcs = make([]*pmcpkg.PageMigrationController, n+1)
@@ -479,9 +480,10 @@ func (w *world) step(sc *Scenario, s Step) {
 			}
 		}
 	case "Await":
+		// the k-th Await of an event in the behaviour waits for the k-th occurrence in the real run
 		key := fmt.Sprintf("%s@%d", s.E, s.G)
-		c0 := w.count[key]
-		ok = w.await(awaitMax, func() bool { return w.count[key] > c0 })
+		w.want[key]++
+		ok = w.await(awaitMax, func() bool { return w.count[key] >= w.want[key] })
 	case "Tick":
 		w.tick(1)
 	default:
@@ -491,6 +493,7 @@ func (w *world) step(sc *Scenario, s Step) {
 		w.stats["steps_done"]++
 	} else {
 		w.stats["steps_skipped"]++
+		w.stats["skipped_"+s.A]++
 	}
 }
 
